@@ -182,6 +182,7 @@ type ClipperOffset struct {
 
 	// callback for dynamic delta
 	deltaCallback *DeltaCallbackFunc
+	vs            verifOffsetState
 }
 
 func NewClipperOffset(miterLimit, arcTolerance float64, preserveCollinear, reverseSolution bool) *ClipperOffset {
@@ -309,6 +310,7 @@ func (co *ClipperOffset) doGroupOffset(group *Group) {
 	}
 
 	absDelta := math.Abs(co.groupDelta)
+	co.vs.groupEvent(co, group)
 
 	co.joinType = group.joinType
 	co.endType = group.endType
@@ -435,6 +437,7 @@ func (co *ClipperOffset) offsetOpenPath(group *Group, path Path64) {
 		co.groupDelta = (*co.deltaCallback)(&path, &co.normals, 0, 0)
 	}
 
+	co.vs.capEvent(co, path, 0, delta)
 	if math.Abs(delta) < Tolerance {
 		co.pathOut = append(co.pathOut, path[0])
 	} else {
@@ -464,6 +467,7 @@ func (co *ClipperOffset) offsetOpenPath(group *Group, path Path64) {
 		co.groupDelta = (*co.deltaCallback)(&path, &co.normals, uint8(highI), uint8(highI))
 	}
 
+	co.vs.capEvent(co, path, highI, delta)
 	if math.Abs(delta) < Tolerance {
 		co.pathOut = append(co.pathOut, path[highI])
 	} else {
